@@ -3,6 +3,7 @@ package main
 import (
 	"bytes"
 	"encoding/json"
+	"os"
 	"os/exec"
 	"strings"
 	"time"
@@ -21,6 +22,8 @@ func runBounded(b BoundedCfg) (map[string]interface{}, string) {
 	out := map[string]interface{}{"name": b.Name, "cmd": b.Cmd, "label": "bounded (not counted as proved)"}
 	cmd := exec.Command("bash", "-c", b.Cmd)
 	cmd.Dir = *verifDir
+	// the stand-ins read their bound from the tier of this run
+	cmd.Env = append(os.Environ(), "VERIF_TIER="+*tier)
 	var buf bytes.Buffer
 	cmd.Stdout = &buf
 	cmd.Stderr = &buf
